@@ -490,6 +490,7 @@ func (e *engine) Run(src *vs.Source, tier string, idx int64) (res *simkit.RunRes
 		res.Stats["pools_lattice_class"]++
 	}
 	res.Stats["pools_with_revision_operand"] += int64(p.revisions)
+	res.Stats["pools_with_large_operand"] += int64(p.large)
 	if sc.focus {
 		res.Stats["focus_mode_runs"]++
 	}
